@@ -49,6 +49,14 @@ def observe_decode(H, syndrome):
         return sml, inv
 
     UF.Support._smallest_invalid_cluster = staticmethod(spy)
+    flat = []
+    real_update = UF.Support._update_parents
+
+    def spy_update(self_, parents, roots):
+        out = real_update(self_, parents, roots)
+        flat.append({'parents': [int(x) for x in parents], 'roots': sorted(int(r) for r in roots)})
+        return out
+    UF.Support._update_parents = spy_update
     raised, corr = '', []
     try:
         with common.time_limit(30):
@@ -58,7 +66,8 @@ def observe_decode(H, syndrome):
         raised = f'{type(ex).__name__}: {ex}'[:100]
     finally:
         UF.Support._smallest_invalid_cluster = staticmethod(real)
-    return snaps, corr, raised
+        UF.Support._update_parents = real_update
+    return snaps, corr, raised, flat
 
 
 def job(item):
@@ -72,9 +81,9 @@ def job(item):
         for _ in range(count):
             e = em.generate(code, p, rng=rng)
             syn = np.asarray(code.measure_syndrome(e)).ravel()[idx].astype(np.uint8)
-            snaps, corr, raised = observe_decode(H, syn)
+            snaps, corr, raised, flat = observe_decode(H, syn)
             recs.append({'m': int(H.shape[0]), 'defects': [int(i) for i in np.nonzero(syn)[0]],
-                         'checks_of_qubit': coq, 'snaps': snaps, 'correction': corr, 'raised': raised,
+                         'checks_of_qubit': coq, 'snaps': snaps, 'correction': corr, 'raised': raised, 'flat': flat,
                          '_label': f'Toric2DCode{tuple(size)} sector {sector} p={p}',
                          '_size': list(size), '_cost': len(snaps) * H.shape[0]})
     return recs
@@ -115,11 +124,27 @@ def evaluate(recs):
 
 
 def run(tier, seed):
-    sizes = [((3, 3), 0.1), ((4, 5), 0.12), ((6, 6), 0.12)] + ([((8, 8), 0.12), ((5, 9), 0.15)] if tier != 'quick' else [])
+    sizes = [((3, 3), 0.1), ((4, 5), 0.12), ((6, 6), 0.12), ((9, 9), 0.15)] + ([((8, 8), 0.12), ((5, 9), 0.15), ((10, 10), 0.15)] if tier != 'quick' else [])
     count = 25 if tier == 'quick' else 120
     jobs = [(s, p, count, seed + k) for k, (s, p) in enumerate(sizes)]
     recs = [r for rs in common.pmap(job, jobs, procs=8) for r in rs]
     for j, r in enumerate(recs):
         r['id'] = j
     rej, st = evaluate(recs)
+    # binding: a forest left unflattened in an accepted record must be rejected
+    import copy
+    for r in recs:
+        if r['id'] in rej or not r['flat']:
+            continue
+        f0 = r['flat'][0]
+        outsiders = [x for x in range(len(f0['parents'])) if x not in f0['roots']]
+        touched = [k for k, x in enumerate(f0['parents']) if x != -1]
+        if not outsiders or not touched:
+            continue
+        c = copy.deepcopy(r)
+        c['flat'][0]['parents'][touched[0]] = outsiders[0]
+        crej, _ = evaluate([c])
+        if not any(x.startswith('after_flattening') for x in crej.get(c['id'], [])):
+            raise common.MachineryError('UnionFind_Trace accepted a forest that was not flattened')
+        break
     return recs, rej, st
